@@ -496,6 +496,7 @@ var (
 	withGap  = regexp.MustCompile(`(?i)\bwith\s`)
 	cteComma = regexp.MustCompile(`(?i),\s*\w+(?:\s*\([^)]*\))?\s+AS\s*\(`)
 	gluedRe  = regexp.MustCompile(`(?i)[0-9]from\b`)
+	dqMarker = regexp.MustCompile("\"[^\"]*(?:\\$|--|/\\*|')[^\"]*\"")
 	nlParen  = regexp.MustCompile(`\w[ \t]*[\n\r\f\v][ \t\n\r]*\(`)
 )
 
@@ -527,6 +528,8 @@ func attribute(s stmt, mech string, checked []chk, k [2]string) string {
 	switch {
 	case phRe.MatchString(q):
 		return "placeholder-lookalike"
+	case dqMarker.MatchString(q):
+		return "comment-marker-in-literal"
 	case strings.Contains(q, `\'`):
 		return "backslash-quote"
 	case strings.Contains(q, `\"`), strings.Contains(q, "\\`"):
